@@ -66,11 +66,11 @@ type World struct {
 }
 
 type proc struct {
-	step     string
-	attempt  int
-	killed   bool // a signal that this script honours was delivered
-	sigs     []int
-	started  bool
+	step    string
+	attempt int
+	killed  bool // a signal that this script honours was delivered
+	sigs    []int
+	started bool
 }
 
 var (
